@@ -100,8 +100,20 @@ func (w *walker) message(path string, td *dproto.TypeDescriptor, rmd protoreflec
 			maxNum = n
 		}
 	}
-	// every number up to max+2: a field iff declared
+	// every number up to max+2, and the numbers that differ from a declared one by a multiple of 2^16 or in sign: a field iff declared
+	probe := make([]int, 0, maxNum+3+8*rfs.Len())
 	for n := 0; n <= maxNum+2; n++ {
+		probe = append(probe, n)
+	}
+	for i := 0; i < rfs.Len(); i++ {
+		n := int(rfs.Get(i).Number())
+		probe = append(probe, n+65536, n+131072, n-65536, n-131072, -n, n+(1<<24), n|(1<<28), n-(1<<31))
+	}
+	probe = append(probe, -1, -65535, -65536, 1<<29-1, -(1 << 31))
+	for _, n := range probe {
+		if n > 1<<31-1 || n < -(1<<31) {
+			continue
+		}
 		fd := md.ByNumber(dproto.FieldNumber(n))
 		rfd := rfs.ByNumber(protoreflect.FieldNumber(n))
 		switch {
@@ -324,7 +336,7 @@ func genFields(t *rapid.T, refs []string, n int) []pmodel.Field {
 		for {
 			num = int32(rapid.IntRange(1, 40).Draw(t, "fnum"))
 			if rapid.IntRange(0, 5).Draw(t, "bigNum") == 0 {
-				num = []int32{15, 16, 127, 128, 2047, 2048, 18999, 20000}[rapid.IntRange(0, 7).Draw(t, "fnumB")]
+				num = []int32{15, 16, 127, 128, 2047, 2048, 18999, 20000, 65535, 65536, 65537, 70000, 100000, 131073}[rapid.IntRange(0, 13).Draw(t, "fnumB")]
 			}
 			if !usedN[num] {
 				usedN[num] = true
@@ -420,7 +432,7 @@ func genSchema(t *rapid.T) pmodel.Schema {
 
 var Prop = pbt.Register(pbt.Prop[Case]{
 	Name: "TestProtoDescriptors",
-	Rule: "generated proto3 files (main package + imported package; nested message declarations; the simple name Item declared in up to five scopes: A.Item, A.Item.Item, B.Item, pkg.Item, other.sub.Item; map fields with equal names in different messages; relative, qualified and fully-qualified type references; recursion; every map key kind; 1..3 services with unary/streaming methods) x ParseServiceMode; the dynamicgo descriptor graph is walked in parallel with protobuf-go's descriptors (built from jhump protoparse output): method set and streaming flags, per reachable message exactly the declared fields (number, name, JSON name, kind, list/map structure, packedness, key kind), message-typed fields must describe the fully-qualified type the schema names; ByNumber over 0..max+2 and ByName/ByJSONName over a key family must find a field iff declared; non-trivial = a simple message name reached under two different full names",
+	Rule: "generated proto3 files (main package + imported package; nested message declarations; the simple name Item declared in up to five scopes: A.Item, A.Item.Item, B.Item, pkg.Item, other.sub.Item; map fields with equal names in different messages; relative, qualified and fully-qualified type references; recursion; every map key kind; 1..3 services with unary/streaming methods) x ParseServiceMode; the dynamicgo descriptor graph is walked in parallel with protobuf-go's descriptors (built from jhump protoparse output): method set and streaming flags, per reachable message exactly the declared fields (number, name, JSON name, kind, list/map structure, packedness, key kind), message-typed fields must describe the fully-qualified type the schema names; ByNumber over 0..max+2 (field numbers up to 131073), over every declared number shifted by multiples of 2^16 / 2^24 / 2^28 and negated, and ByName/ByJSONName over a key family must find a field iff declared; non-trivial = a simple message name reached under two different full names",
 	Gen: func(t *rapid.T) Case {
 		return Case{Schema: genSchema(t), Mode: rapid.IntRange(0, 2).Draw(t, "mode")}
 	},
